@@ -57,6 +57,7 @@ def required(tier):
     cl += ['climb:outside-mass-refused', 'cruise:outside-mass-refused',
            'descent:mass-ignored', 'mass:min', 'mass:max', 'ptf:row-reproduced',
            'load-refused:missing-row', 'load-refused:fourth-mass', 'load-refused:duplicate-row',
+           'load-refused:row-replaced-by-a-copy-of-another',
            'table:sample', 'table:generated', 'loaded:from-toml-file',
            'two-tables:same-grid-other-values', 'state-object:reused-across-models',
            'threads:four-evaluating-one-model']
@@ -386,13 +387,18 @@ def run_shard(spec, rec):
                                 'cruise_fls': t['cruise']['fls'],
                                 'descent_fls': t['descent']['fls']})
                 # ---- (f) invalid tables refused at load -----------------------------------------
-                for kind in ('missing-row', 'fourth-mass', 'duplicate-row'):
+                for kind in ('missing-row', 'fourth-mass', 'duplicate-row',
+                             'row-replaced-by-a-copy-of-another'):
                     bad = [list(r) for r in perfgen.table_rows(t)]
                     ph = rng.choice(['climb', 'cruise'])
                     idx = [i for i, r in enumerate(bad)
                            if (r[3] > 0) == (ph == 'climb') and r[3] >= 0]
                     if kind == 'missing-row':
                         del bad[rng.choice(idx)]
+                    elif kind == 'row-replaced-by-a-copy-of-another':
+                        # same number of rows: one node twice, another one missing
+                        i_, j_ = rng.sample(idx, 2)
+                        bad[i_] = list(bad[j_])
                     elif kind == 'fourth-mass':
                         r = list(bad[rng.choice(idx)])
                         r[4] = t['masses'][-1] + 777.0
